@@ -134,22 +134,22 @@ fn h17_ws<const K: usize>(len: usize) {
 }
 
 #[kani::proof]
-#[kani::unwind(9)]
+#[kani::unwind(6)]
 fn q_h17ws__k1_len1() {
     h17_ws::<1>(1)
 }
 #[kani::proof]
-#[kani::unwind(9)]
-fn q_h17ws__k2_len1() {
+#[kani::unwind(6)]
+fn t_h17ws__k2_len1() {
     h17_ws::<2>(1)
 }
 #[kani::proof]
-#[kani::unwind(9)]
+#[kani::unwind(6)]
 fn t_h17ws__k2_len0() {
     h17_ws::<2>(0)
 }
 #[kani::proof]
-#[kani::unwind(9)]
+#[kani::unwind(6)]
 fn t_h17ws__k3_len1() {
     h17_ws::<3>(1)
 }
@@ -158,8 +158,8 @@ fn t_h17ws__k3_len1() {
 /// state hook: the tables of a track that saw one sample of `size` bytes), followed by the
 /// encoding of the sample entry that write_end updates (esds buffer size).
 #[kani::proof]
-#[kani::unwind(9)]
-fn q_h17end__aac_any_max_sample_size() {
+#[kani::unwind(6)]
+fn t_h17end__aac_any_max_sample_size() {
     let cfg = track_config(Kind::Aac, 1000);
     let tw0 = match VerifTrackWriter::new(1, &cfg) {
         Ok(t) => t,
